@@ -68,6 +68,17 @@ def accepted(case):
         return None
 
 
+def with_refs(case, rng, p=0.5, decoys=False):
+    """the same case with parts of its schema moved into registries bound to the validator (None when the schema has
+    no position that can be given by reference)"""
+    from . import rewrite
+    refschema, rs, ss, applied = rewrite.to_references(rng, case['schema'], p=p)
+    if not applied:
+        return None
+    return dict(case, schema=refschema, rules_sets=rs, schemas=ss, bound_registries=True, decoys=decoys,
+                inline_schema=case['schema'])
+
+
 ONLY = None      # replay mode: (seed, index) of the one case to yield
 
 
